@@ -27,6 +27,7 @@ TIERS = dict(quick=dict(cases=20000, wall=40.0), thorough=dict(cases=1200000, wa
 
 def feat_for(tier, nested=True):
     f = sched.default_feat()
+    f["prior_run"] = True
     f["acts"] = dict(cont=10, ret=1, raise_=0, kbint=0, extend=0, remove=0, forever=1)
     f["enter"] = dict(ok=15, raise_=0, ret=1)
     f["dodoer_tock"] = "zero"
